@@ -120,7 +120,10 @@ func (c *FileCache) Close(file *os.File) error {
 		return nil
 	}
 
-	if elem, ok := c.cache[name]; ok {
+	// Only adjust the cached entry if it holds this file. A file that was
+	// opened while caching was disabled is not in the cache, even if another
+	// file with the same name has been cached since.
+	if elem, ok := c.cache[name]; ok && elem.Value.(*entry).file == file {
 		ent := elem.Value.(*entry)
 		if ent.refs == 0 {
 			return &os.PathError{Op: "close", Path: name, Err: os.ErrClosed}
